@@ -2203,6 +2203,7 @@ def check_C02(ctx):
     if fac and tabs:
         ctx.guard("R", premise_residual, ctx, fac, tabs[2])
     premise_entry(ctx, "E", sizes=((FIVE, 5), (SIX, 6), (SEVEN, 7)))
+    ctx.guard("C02.entry-no-panic", entry_totality, ctx, "C02.entry-no-panic", ((SIX, 6), (SEVEN, 7)), None)
 
 
 def check_C09(ctx):
